@@ -156,7 +156,7 @@ def check(run: Run) -> None:
                     fa = fa or ctx.analysis(fi)
                     st = strip_sites(fa.term_of(t.args[0])) if fa.cfg.has_node(t) else ("top", "?")
                     # the asserted value is the result of visiting / a callback / a constructor: internal invariant
-                    internal = st[0] in ("gvisit", "visit", "new", "app", "index", "phi", "attr", "upd")
+                    internal = st[0] in ("gvisit", "visit", "new", "app", "index", "phi", "attr", "upd", "ifexp")
                     if internal:
                         run.ok("C10.R4", fi, f"assert {ast.unparse(t)[:60]}: node-kind invariant of an internal value")
                         continue
